@@ -407,17 +407,18 @@ structure UVal where
   val : Rat
   deriving Repr, DecidableEq
 
-abbrev UTable := List (String × UVal)
+/-- the `Units` dict; names are kept as character lists (cheap to compare, also for the kernel) -/
+abbrev UTable := List (List Char × UVal)
 
-def lookup (U : UTable) (n : String) : Option UVal := (U.find? (·.1 = n)).map (·.2)
+def lookup (U : UTable) (n : List Char) : Option UVal := (U.find? (·.1 = n)).map (·.2)
 
 def pow10 (k : Int) : Rat := if k ≥ 0 then ((10 ^ k.toNat : Nat) : Rat) else 1 / ((10 ^ (-k).toNat : Nat) : Rat)
 
 /-- `Units.__prefix` as the SI defines it (compared with the real table by the harness) -/
-def prefixes : List (String × Rat) :=
-  [("Y", pow10 24), ("Z", pow10 21), ("E", pow10 18), ("P", pow10 15), ("T", pow10 12), ("G", pow10 9), ("M", pow10 6),
-   ("k", pow10 3), ("h", pow10 2), ("d", pow10 (-1)), ("c", pow10 (-2)), ("m", pow10 (-3)), ("μ", pow10 (-6)),
-   ("n", pow10 (-9)), ("p", pow10 (-12)), ("f", pow10 (-15)), ("a", pow10 (-18)), ("z", pow10 (-21)), ("y", pow10 (-24))]
+def prefixes : List (List Char × Rat) :=
+  [(['Y'], pow10 24), (['Z'], pow10 21), (['E'], pow10 18), (['P'], pow10 15), (['T'], pow10 12), (['G'], pow10 9), (['M'], pow10 6),
+   (['k'], pow10 3), (['h'], pow10 2), (['d'], pow10 (-1)), (['c'], pow10 (-2)), (['m'], pow10 (-3)), (['μ'], pow10 (-6)),
+   (['n'], pow10 (-9)), (['p'], pow10 (-12)), (['f'], pow10 (-15)), (['a'], pow10 (-18)), (['z'], pow10 (-21)), (['y'], pow10 (-24))]
 
 inductive PErr
   | value       -- ValueError
@@ -495,7 +496,7 @@ def parseFactor (U : UTable) (q : UVal) (fb : List Char × Bool) : Except PErr U
   let scale ← match (if pre = [] then some 1 else readNum pre) with
     | some x => pure x
     | none => throw .value
-  let unit ← match lookup U (String.ofList u) with
+  let unit ← match lookup U u with
     | some x => pure x
     | none => throw .value
   let pv ← ratPow unit.val power
@@ -520,7 +521,7 @@ def construct (U : UTable) (d : Pows) (s : List Char) : Except PErr UVal := do
   if q.dim = d then pure q else throw .dimension
 
 /-- `Units.__setattr__(name, value)` with the value already a quantity -/
-def define (U : UTable) (n : String) (v : UVal) : Except PErr UTable :=
+def define (U : UTable) (n : List Char) (v : UVal) : Except PErr UTable :=
   if (lookup U n).isSome then .error .exists_
   else
     let scaled : UTable := prefixes.map fun ps => (ps.1 ++ n, { v with val := v.val * ps.2 })
@@ -529,16 +530,16 @@ def define (U : UTable) (n : String) (v : UVal) : Except PErr UTable :=
 
 /-- a statement of the unit section of `SI.py` -/
 inductive UDef
-  | wrap (n : String) (v : UVal)            -- units.n = Dim.wrap(value)
-  | str (n : String) (s : String)           -- units.n = '...'
-  | item (n : String) (s : String)          -- units['n'] = <expression equal to parse(s)>   (no prefixes)
+  | wrap (n : List Char) (v : UVal)              -- units.n = Dim.wrap(value)
+  | str (n : List Char) (s : List Char)          -- units.n = '...'
+  | item (n : List Char) (s : List Char)         -- units['n'] = <expression equal to parse(s)>   (no prefixes)
   deriving Repr
 
 def defineAll : UTable → List UDef → Except PErr UTable
   | U, [] => .ok U
   | U, .wrap n v :: t => do let U' ← define U n v; defineAll U' t
-  | U, .str n s :: t => do let v ← parse U s.toList; let U' ← define U n v; defineAll U' t
-  | U, .item n s :: t => do let v ← parse U s.toList; defineAll (U ++ [(n, v)]) t
+  | U, .str n s :: t => do let v ← parse U s; let U' ← define U n v; defineAll U' t
+  | U, .item n s :: t => do let v ← parse U s; defineAll (U ++ [(n, v)]) t
 
 
 /-! ### the SI as a trusted table (what `SI.units` has to contain) -/
@@ -596,6 +597,12 @@ def siSpec : List (String × UVal) :=
 
 /-- names that must *not* be units (deca is not supported; `in` has no prefixed forms; no double prefixes) -/
 def siAbsent : List String := ["dam", "min2", "kin", "mkm", "kkg", "", "da", "μ", "k"]
+
+/-- executable form of the statement of `si_units_sound` -/
+def checkTable (defs : List UDef) : Bool :=
+  match defineAll [] defs with
+  | .ok U => siSpec.all (fun e => lookup U e.1.toList == some e.2) && siAbsent.all (fun n => lookup U n.toList == none)
+  | .error _ => false
 
 def fmtChars : List Char := ['0', '1', '2', '3', '4', '5', '6', '7', '8', '9', '.', ',']
 
